@@ -15,8 +15,9 @@ import streams_common as sc
 
 GEN = []
 RULE = ("corpus; single-function boundary grid (lists of size 0..3(4), tuple and iterator receivers, every integer "
-        "argument in [-3, len+3]); seeded random typed pipelines of 1..4 functions over tuple/iterator/set/dict/"
-        "range/repeat sources (elements: ints in [-3,9], nulls, pairs, nested lists; duplicates likely); non-trivial = "
+        "argument in [-3, len+3], every registered function of the two modules at least once); seeded random typed "
+        "pipelines of 1..4 functions over tuple/iterator/set/dict/record/range/repeat/sequence/generate/generateMany sources "
+        "(elements: ints in [-3,9], nulls, pairs, nested lists; duplicates likely; sizes 0..8); non-trivial = "
         "at least one function applied to a non-empty collection; distinct = distinct (source, stages)")
 TRUSTED = ["Model/Queries.v + Model/Streams.v are hand transcriptions of queries.py / collections.py / utils.memorize; "
            "tied by this correspondence (vm_compute inside Coq)",
@@ -25,7 +26,12 @@ ASSUMPTIONS = ["lambda bodies come from the generated family and are only applie
                "(the generator tracks element shapes); errors raised by lambda bodies belong to C04/C15",
                "iteration order of Python sets is not modelled: set-valued results are compared as sets and a set is "
                "only turned into a sequence through orderBy / order-insensitive functions",
-               "dict views (keys/values/items) are observed through toList() only (their finalisation is C10's F7)"]
+               "dict views (keys/values/items) are observed through toList() only (their finalisation is C10's F7)",
+               "container-kind-sensitive followers (indexer, sequence * n, isList/..., insert at a negative position) are only "
+               "applied to receivers whose kind is a documented fact (sources, toList, splitAt, dict views), so that a rewrite "
+               "returning a tuple instead of an iterator is not reported",
+               "not modelled: mergeWith on NESTED dictionaries (values of the universe are null/bool/int/sequences), "
+               "groupBy aggregators other than $.len()/$.sum()/$.first() and their pre-1.1.1 spelling, strings"]
 EXPLANATION = ("Coq proofs about the list model (stable sort, grouping, algebraic laws, streaming == list semantics) + "
                "in-Coq differential check of the lazy model against queries.py/collections.py on boundary grids and random pipelines")
 ALLOWED_AXIOMS = []
